@@ -125,6 +125,7 @@ func encodeGrpcMessage(msg string) string {
 	if pos == 0 {
 		return msg
 	}
+	sb.WriteString(msg[pos:]) // bytes after the last escape
 	return sb.String()
 }
 
